@@ -946,3 +946,306 @@ Proof.
   intros Hu Hp. apply select_perm_st; [now apply Inv_run|].
   apply pending_prio_ok; [constructor|exact Hp].
 Qed.
+
+(** *** per-sender nonce order *)
+
+Definition from (s : Z) (t : tx) : bool := tx_sender t =? s.
+
+Lemma filter_tag_same s l : filter (from s) (tag s l) = tag s l.
+Proof.
+  apply filter_all_true. intros x Hx. apply tag_In in Hx. unfold from. destruct Hx as [-> _]. apply Z.eqb_refl.
+Qed.
+
+Lemma filter_tag_other s s' l : s' <> s -> filter (from s) (tag s' l) = [].
+Proof.
+  intros Hne. induction l as [|e l IH]; simpl; [reflexivity|].
+  unfold from at 1, tx_sender; simpl. destruct (Z.eqb_spec s' s); [contradiction|assumption].
+Qed.
+
+Lemma walk_prefix sc pi : forall cur s,
+  exists rem, tag s (sget s cur) = filter (from s) (fst (walk sc pi cur)) ++ tag s rem.
+Proof.
+  induction pi as [|k rest IH]; intros cur s.
+  - simpl. eauto.
+  - cbn [walk]. set (s0 := k_sender k).
+    destruct (drain s0 (hd_error rest) sc (sget s0 cur)) as [[o rem0] pn] eqn:Ed.
+    pose proof (drain_split _ _ _ _ _ _ _ Ed) as Esplit.
+    destruct pn.
+    + simpl. destruct (Z.eq_dec s0 s) as [E|Hne].
+      * rewrite <- E. rewrite filter_tag_same. exists rem0. now rewrite Esplit, tag_app.
+      * rewrite filter_tag_other by assumption. simpl. eauto.
+    + destruct (IH (aset Z.eqb s0 rem0 cur) s) as [rem Hrem].
+      destruct (walk sc rest (aset Z.eqb s0 rem0 cur)) as [o2 pn2]. simpl in *.
+      rewrite filter_app. destruct (Z.eq_dec s0 s) as [E|Hne].
+      * rewrite <- E in *. rewrite filter_tag_same. rewrite sget_aset_same in Hrem.
+        exists rem. rewrite Esplit, tag_app, Hrem. now rewrite app_assoc.
+      * rewrite filter_tag_other by assumption. simpl.
+        rewrite sget_aset_other in Hrem by congruence. eauto.
+Qed.
+
+Lemma map_nonce_tag s l : map tx_nonce (tag s l) = map fst l.
+Proof. unfold tag. rewrite map_map. reflexivity. Qed.
+
+Lemma ssorted_map_fst l : ssorted l -> StronglySorted Z.lt (map fst l).
+Proof.
+  induction 1 as [|a l HS IH HF]; simpl; constructor; [assumption|].
+  rewrite Forall_forall in *. intros x Hx. apply in_map_iff in Hx. destruct Hx as [b [<- Hb]]. now apply HF.
+Qed.
+
+Lemma Inv_sget_sorted st pd s : Inv st pd -> ssorted (sget s (sidx st)).
+Proof.
+  intros HI. destruct (sget_cases s (sidx st)) as [E|H]; [rewrite E; constructor|].
+  now apply (inv_ssorted _ _ HI) in H.
+Qed.
+
+Lemma select_nonce_order_st st pd s :
+  Inv st pd -> StronglySorted Z.lt (map tx_nonce (filter (from s) (select st))).
+Proof.
+  intros HI. unfold select, select_op. destruct (pidx st) eqn:E; [simpl; constructor|].
+  cbn [fst snd]. pose proof (Inv_reorder _ _ HI) as HI'.
+  destruct (walk_prefix (scores (reorder st)) (pidx (reorder st)) (sidx (reorder st)) s) as [rem Hrem].
+  pose proof (ssorted_map_fst _ (Inv_sget_sorted _ _ s HI')) as HS.
+  rewrite <- map_nonce_tag with (s := s) in HS. rewrite Hrem, map_app in HS.
+  now apply SS_app_l in HS.
+Qed.
+
+Lemma select_nonce_order_proof ops s :
+  unique_sender_nonce ops -> StronglySorted Z.lt (map tx_nonce (filter (from s) (select (run ops)))).
+Proof. intros Hu. eapply select_nonce_order_st. now apply Inv_run. Qed.
+
+(** *** priority dominance *)
+
+(** [y] is the first element of [L] that is not in [out] *)
+Definition fni (L out : list tx) (y : tx) : Prop :=
+  exists L1 L2, L = L1 ++ y :: L2 /\ (forall x, In x L1 -> In x out) /\ ~ In y out.
+
+Record DOK (sc : list ((Z * Z) * (Z * Z))) (all visited rest : list key) (cur : list (Z * slist)) : Prop := {
+  dok_all : all = visited ++ rest;
+  dok_sorted : psorted all;
+  dok_keys : NoDup (map fst cur);
+  dok_ssorted : forall s l, In (s, l) cur -> ssorted l;
+  dok_guard : forall s l e, In (s, l) cur -> In e l -> min_value < snd e;
+  dok_key : forall s l e, In (s, l) cur -> In e l -> In (ekey s sc e) all;
+  dok_head : forall s e l, In (s, e :: l) cur -> ~ In (ekey s sc e) visited
+}.
+
+Lemma ssorted_tag_NoDup s l : ssorted l -> NoDup (tag s l).
+Proof.
+  induction 1 as [|a l HS IH HF]; simpl; constructor; [|assumption].
+  intros Hin. apply tag_In in Hin. unfold tx_nonce, tx_prio in Hin; simpl in Hin. destruct Hin as [_ Hin].
+  rewrite Forall_forall in HF. specialize (HF _ Hin). unfold slt in HF; simpl in HF. lia.
+Qed.
+
+Lemma NoDup_app_disjoint {A} (a b : list A) x : NoDup (a ++ b) -> In x a -> In x b -> False.
+Proof.
+  induction a as [|h a IH]; simpl; intros ND Ha Hb; [contradiction|].
+  inversion ND as [|? ? Hn ND']; subst. destruct Ha as [->|Ha]; [|eauto].
+  apply Hn. apply in_or_app. now right.
+Qed.
+
+Lemma walk_dom sc all : forall rest visited cur, DOK sc all visited rest cur ->
+  forall out1 t out2, fst (walk sc rest cur) = out1 ++ t :: out2 ->
+  forall s' y, s' <> tx_sender t -> fni (tag s' (sget s' cur)) out1 y -> tx_prio y <= tx_prio t.
+Proof.
+  induction rest as [|k rest IH]; intros visited cur HD out1 t out2 Hw s' y Hs Hf.
+  - simpl in Hw. destruct out1; discriminate.
+  - cbn [walk] in Hw. set (s := k_sender k) in *.
+    destruct (drain s (hd_error rest) sc (sget s cur)) as [[o rem] pn] eqn:Ed.
+    pose proof (drain_split _ _ _ _ _ _ _ Ed) as Esplit.
+    assert (Hl : forall e, In e (sget s cur) -> In (s, sget s cur) cur).
+    { intros e He. destruct (sget_cases s cur) as [E|]; [rewrite E in He; contradiction|assumption]. }
+    assert (G : hd_error rest = None -> forall e, In e (sget s cur) -> min_value < snd e).
+    { intros _ e He. eapply (dok_guard _ _ _ _ _ HD); eauto. }
+    pose proof (drain_nopanic _ _ _ _ _ _ _ Ed G) as Epn. subst pn.
+    destruct (walk sc rest (aset Z.eqb s rem cur)) as [o2 pn2] eqn:Ew. cbn [fst] in Hw.
+    pose proof (dok_sorted _ _ _ _ _ HD) as HSall. rewrite (dok_all _ _ _ _ _ HD) in HSall.
+    apply app_split_mid in Hw. destruct Hw as [[a2 [Ea Eo2]]|[b1 [Eo1 Eb]]].
+    + (* t is yielded at this index node *)
+      assert (Ht : In t (tag s o)) by (rewrite Ea; apply in_or_app; right; now left).
+      apply tag_In in Ht. destruct Ht as [Ets Hto].
+      destruct Hf as [L1 [L2 [EL [Hin1 Hny]]]].
+      destruct L1 as [|x L1].
+      2:{ exfalso. assert (Hx1 : In x (tag s' (sget s' cur))) by (rewrite EL; now left).
+          apply tag_In in Hx1. destruct Hx1 as [Exs _].
+          assert (Hx2 : In x (tag s o)) by (rewrite Ea; apply in_or_app; left; apply Hin1; now left).
+          apply tag_In in Hx2. destruct Hx2 as [Exs2 _]. congruence. }
+      simpl in EL. destruct (sget s' cur) as [|ey l'] eqn:Esg; [discriminate|].
+      simpl in EL. injection EL as Ey EL2.
+      assert (Hcur : In (s', ey :: l') cur).
+      { destruct (sget_cases s' cur) as [E|H]; rewrite Esg in *; [discriminate|assumption]. }
+      pose proof (dok_head _ _ _ _ _ HD _ _ _ Hcur) as Hnv.
+      pose proof (dok_key _ _ _ _ _ HD _ _ ey Hcur (or_introl eq_refl)) as Hall.
+      rewrite (dok_all _ _ _ _ _ HD) in Hall. apply in_app_or in Hall. destruct Hall as [|Hall]; [contradiction|].
+      destruct Hall as [Ek|Hall].
+      { exfalso. apply Hs. rewrite Ets. unfold s. rewrite Ek. reflexivity. }
+      destruct rest as [|k1 r1]; [contradiction|].
+      assert (Hle1 : pwle (wt s' sc ey) (kpw k1)).
+      { destruct Hall as [Ek1|Hall]; [subst k1; unfold pwle, wt, kpw, ekey; simpl; lia|].
+        apply SS_app_r in HSall. inversion HSall as [|? ? HS2 _]; subst. inversion HS2 as [|? ? _ HF2]; subst.
+        rewrite Forall_forall in HF2. apply (key_gt_pwle _ _ (HF2 _ Hall)). }
+      simpl in Ed. pose proof (drain_out_passes _ _ _ _ _ _ _ _ Ed Hto) as Hle2.
+      subst y. unfold pwle, wt, kpw, tx_prio in *; simpl in *. lia.
+    + (* t is yielded later *)
+      subst o2.
+      assert (HD' : DOK sc all (visited ++ [k]) rest (aset Z.eqb s rem cur)).
+      { constructor.
+        - rewrite <- app_assoc. apply (dok_all _ _ _ _ _ HD).
+        - apply (dok_sorted _ _ _ _ _ HD).
+        - apply (aset_NoDup Z.eqb Z.eqb_spec), (dok_keys _ _ _ _ _ HD).
+        - intros s0 l0 Hin. apply (In_aset_inv Z.eqb Z.eqb_spec) in Hin; [|apply (dok_keys _ _ _ _ _ HD)].
+          destruct Hin as [[-> ->]|[_ Hin]]; [|now apply (dok_ssorted _ _ _ _ _ HD) in Hin].
+          destruct rem as [|h tl]; [constructor|].
+          assert (Hh : In h (sget s cur)) by (rewrite Esplit; apply in_or_app; right; now left).
+          pose proof (dok_ssorted _ _ _ _ _ HD _ _ (Hl _ Hh)) as HSs. rewrite Esplit in HSs. now apply SS_app_r in HSs.
+        - intros s0 l0 e Hin He. apply (In_aset_inv Z.eqb Z.eqb_spec) in Hin; [|apply (dok_keys _ _ _ _ _ HD)].
+          destruct Hin as [[-> ->]|[_ Hin]]; [|eapply (dok_guard _ _ _ _ _ HD); eauto].
+          assert (He' : In e (sget s cur)) by (rewrite Esplit; apply in_or_app; now right).
+          eapply (dok_guard _ _ _ _ _ HD); eauto.
+        - intros s0 l0 e Hin He. apply (In_aset_inv Z.eqb Z.eqb_spec) in Hin; [|apply (dok_keys _ _ _ _ _ HD)].
+          destruct Hin as [[-> ->]|[_ Hin]]; [|eapply (dok_key _ _ _ _ _ HD); eauto].
+          assert (He' : In e (sget s cur)) by (rewrite Esplit; apply in_or_app; now right).
+          eapply (dok_key _ _ _ _ _ HD); eauto.
+        - intros s0 e l0 Hin Hv. apply (In_aset_inv Z.eqb Z.eqb_spec) in Hin; [|apply (dok_keys _ _ _ _ _ HD)].
+          destruct Hin as [[-> Erem]|[Hne Hin]].
+          + destruct (drain_rem_fails _ _ _ _ _ _ e l0 Ed G (eq_sym Erem)) as [k1 [Ek1 Hfail]].
+            destruct rest as [|k1' r1]; [discriminate|]. simpl in Ek1. injection Ek1 as ->.
+            replace (visited ++ k :: k1 :: r1) with ((visited ++ [k]) ++ k1 :: r1) in HSall by (now rewrite <- app_assoc).
+            pose proof (SS_app_cross _ _ _ HSall _ k1 Hv (or_introl eq_refl)) as Hgt.
+            apply key_gt_pwle in Hgt. apply (pwlt_not_le _ _ Hfail). exact Hgt.
+          + apply in_app_or in Hv. destruct Hv as [Hv|[Ek|[]]].
+            * revert Hv. eapply (dok_head _ _ _ _ _ HD); eauto.
+            * apply Hne. unfold s. rewrite Ek. reflexivity. }
+      eapply (IH _ _ HD' b1 t out2); [rewrite Ew; reflexivity|exact Hs|].
+      destruct Hf as [L1 [L2 [EL [Hin1 Hny]]]].
+      destruct (Z.eq_dec s' s) as [E|Hne].
+      * subst s'. rewrite sget_aset_same. rewrite Esplit, tag_app in EL.
+        apply app_split_mid in EL. destruct EL as [[a2 [Ea _]]|[b1' [EL1 Erem]]].
+        -- exfalso. apply Hny. rewrite Eo1. apply in_or_app. left. rewrite Ea. apply in_or_app. right. now left.
+        -- exists b1', L2. split; [assumption|]. split.
+           ++ intros x Hx. assert (Hx1 : In x out1) by (apply Hin1; rewrite EL1; apply in_or_app; now right).
+              rewrite Eo1 in Hx1. apply in_app_or in Hx1. destruct Hx1 as [Hx1|]; [|assumption].
+              exfalso. assert (Hh : In x (tag s rem)) by (rewrite Erem; apply in_or_app; now left).
+              assert (HND : NoDup (tag s o ++ tag s rem)).
+              { rewrite <- tag_app, <- Esplit. apply ssorted_tag_NoDup.
+                apply tag_In in Hh. destruct Hh as [_ Hh].
+                assert (Hh' : In (tx_nonce x, tx_prio x) (sget s cur)) by (rewrite Esplit; apply in_or_app; now right).
+                apply (dok_ssorted _ _ _ _ _ HD _ _ (Hl _ Hh')). }
+              eapply NoDup_app_disjoint; eauto.
+           ++ intros Hy. apply Hny. rewrite Eo1. apply in_or_app. now right.
+      * rewrite sget_aset_other by assumption. exists L1, L2. split; [assumption|]. split.
+        -- intros x Hx. pose proof (Hin1 _ Hx) as Hx1. rewrite Eo1 in Hx1. apply in_app_or in Hx1.
+           destruct Hx1 as [Hx1|]; [|assumption]. exfalso.
+           apply tag_In in Hx1. destruct Hx1 as [Exs _].
+           assert (Hx2 : In x (tag s' (sget s' cur))) by (rewrite EL; apply in_or_app; now left).
+           apply tag_In in Hx2. destruct Hx2 as [Exs2 _]. congruence.
+        -- intros Hy. apply Hny. rewrite Eo1. apply in_or_app. now right.
+Qed.
+
+Lemma tx_eq_dec (a b : tx) : {a = b} + {a <> b}.
+Proof. repeat decide equality. Qed.
+
+Lemma ssorted_tag_nonce s l : ssorted l -> StronglySorted (fun a b => tx_nonce a < tx_nonce b) (tag s l).
+Proof.
+  induction 1 as [|a l HS IH HF]; simpl; constructor; [assumption|].
+  rewrite Forall_forall in *. intros x Hx. apply tag_In in Hx. destruct Hx as [_ Hx].
+  specialize (HF _ Hx). unfold slt, tx_nonce in *; simpl in *. exact HF.
+Qed.
+
+Lemma select_dom_st st pd :
+  Inv st pd -> Forall (fun t => min_value < tx_prio t) pd ->
+  forall out1 t out2, select st = out1 ++ t :: out2 ->
+  forall s' y, s' <> tx_sender t -> next_available s' out1 pd y -> tx_prio y <= tx_prio t.
+Proof.
+  intros HI HG out1 t out2 Hsel s' y Hs [Hypd [Eys [Hyo Hmin]]].
+  unfold select, select_op in Hsel. destruct (pidx st) as [|k0 l0] eqn:E; [simpl in Hsel; destruct out1; discriminate|].
+  cbn [fst snd] in Hsel. pose proof (Inv_reorder _ _ HI) as HI'. clear E.
+  set (st' := reorder st) in *.
+  assert (HD : DOK (scores st') (pidx st') [] (pidx st') (sidx st')).
+  { constructor.
+    - reflexivity.
+    - apply (inv_sorted _ _ HI').
+    - apply (inv_skeys _ _ HI').
+    - apply (inv_ssorted _ _ HI').
+    - intros s l e Hl He. rewrite Forall_forall in HG. apply (HG _ (inv_entry_in_pd _ _ HI' _ _ _ Hl He)).
+    - intros s l e Hl He. pose proof (inv_entry_in_pd _ _ HI' _ _ _ Hl He) as Hpd.
+      destruct (inv_pd_key _ _ HI' _ Hpd) as [k [Hk Ek]].
+      unfold key_tx in Ek. injection Ek as Es En Ep.
+      replace (ekey s (scores st') e) with k; [assumption|].
+      unfold ekey, score_get. rewrite <- Es, <- En, <- Ep. rewrite (inv_sc1 _ _ HI' _ Hk). now destruct k.
+    - intros s e l _ []. }
+  eapply (walk_dom _ _ _ _ _ HD out1 t out2 Hsel s' y Hs).
+  destruct (inv_pd_entry _ _ HI' _ Hypd) as [Hent Hy]. rewrite Eys in Hent, Hy.
+  assert (HyL : In y (tag s' (sget s' (sidx st')))) by (apply tag_In; auto).
+  apply in_split in HyL. destruct HyL as [L1 [L2 EL]]. exists L1, L2. split; [assumption|]. split; [|assumption].
+  intros x Hx. destruct (in_dec tx_eq_dec x out1) as [|Hnx]; [assumption|]. exfalso.
+  assert (HxL : In x (tag s' (sget s' (sidx st')))) by (rewrite EL; apply in_or_app; now left).
+  pose proof (ssorted_tag_nonce s' _ (inv_ssorted _ _ HI' _ _ Hent)) as HS. rewrite EL in HS.
+  pose proof (SS_app_cross _ _ _ HS x y Hx (or_introl eq_refl)) as Hlt.
+  apply tag_In in HxL. destruct HxL as [Exs Hxe].
+  assert (Hxpd : In x pd).
+  { pose proof (inv_entry_in_pd _ _ HI' _ _ _ Hent Hxe) as H. simpl in H. rewrite <- Exs in H. now destruct x as [[? ?] ?]. }
+  specialize (Hmin x Hxpd Exs Hnx). cbv beta in Hlt. lia.
+Qed.
+
+Lemma select_priority_dominates_proof ops :
+  unique_sender_nonce ops -> priorities_above_min ops ->
+  forall out1 t out2, select (run ops) = out1 ++ t :: out2 ->
+  forall s' y, s' <> tx_sender t -> next_available s' out1 (pending ops) y -> tx_prio y <= tx_prio t.
+Proof.
+  intros Hu Hp. apply select_dom_st; [now apply Inv_run|].
+  apply pending_prio_ok; [constructor|exact Hp].
+Qed.
+
+(** ** Priority classes (over the generated table) *)
+Lemma priority_classes_proof :
+  map fst Gen.C19.priority_table =
+    ["/palomachain.paloma.consensus."; "/palomachain.paloma.scheduler."; "/palomachain.paloma.evm."; "/palomachain.paloma.valset."]%string /\
+  forall us1 a1 us2 a2 i, tx_class us1 = Some i ->
+    match tx_class us2 with
+    | Some j => ((i < j)%nat -> tx_priority us2 a2 < tx_priority us1 a1) /\ (i = j -> tx_priority us2 a2 = tx_priority us1 a1)
+    | None => a2 < Gen.C19.max_int64 - 3 -> tx_priority us2 a2 < tx_priority us1 a1
+    end.
+Proof.
+  split; [reflexivity|].
+  intros us1 a1 us2 a2 i.
+  assert (T2 : tx_priority us2 a2 = match us2 with [u] => match lookup_prefix Gen.C19.priority_table u with Some v => v | None => a2 end | _ => a2 end).
+  { destruct us2 as [|u2 [|u3 l3]]; try reflexivity. unfold tx_priority.
+    destruct (Z.eqb_spec (Z.of_nat (List.length (u2 :: u3 :: l3))) Gen.C19.single_message_len) as [E|]; [|reflexivity].
+    exfalso. unfold Gen.C19.single_message_len in E. cbn [List.length] in E. lia. }
+  destruct us1 as [|u1 [|? ?]]; try discriminate.
+  rewrite T2. clear T2.
+  unfold tx_class, tx_priority, Gen.C19.priority_table, Gen.C19.single_message_len, Gen.C19.max_int64.
+  cbn [List.length Z.of_nat Pos.of_succ_nat Z.eqb Pos.eqb prefix_index lookup_prefix].
+  destruct us2 as [|u2 [|? ?]];
+  repeat match goal with |- context [String.prefix ?a ?b] => destruct (String.prefix a b) end;
+  cbn [option_map]; intros E; inversion E; subst; try (intros; lia); split; intros; try lia; try reflexivity.
+Qed.
+
+(** ** Non-vacuity: a concrete history inside the premises, with ties, a remove and repeated selects *)
+Definition ex_ops : list op :=
+  [ Insert 1 0 42; Insert 2 0 42; Insert 2 1 9223372036854775807; Insert 1 1 42; Insert 3 5 7;
+    Select; Remove 2 0; Insert 3 2 42; Select ].
+
+Example ex_premises : unique_sender_nonce ex_ops /\ priorities_above_min ex_ops.
+Proof.
+  split.
+  - cbv. intuition congruence.
+  - repeat constructor.
+Qed.
+
+Example ex_select :
+  select (run ex_ops) = [(2, 1, 9223372036854775807); (1, 0, 42); (1, 1, 42); (3, 2, 42); (3, 5, 7)]
+  /\ pending ex_ops = [(1, 0, 42); (2, 1, 9223372036854775807); (1, 1, 42); (3, 5, 7); (3, 2, 42)]
+  /\ count (run ex_ops) = 5
+  /\ (* before the remove, the tie between senders 1 and 2 at priority 42 is won by sender 2, whose last tx has the higher priority *)
+     select (run (firstn 5 ex_ops)) = [(2, 0, 42); (2, 1, 9223372036854775807); (1, 0, 42); (1, 1, 42); (3, 5, 7)].
+Proof. vm_compute. auto. Qed.
+
+(** the hypothesis of the dominance theorem is satisfiable: after [(2,1,_); (1,0,42)] sender 3's next available is (3,2,42) *)
+Example ex_next_available :
+  next_available 3 [(2, 1, 9223372036854775807); (1, 0, 42)] (pending ex_ops) (3, 2, 42).
+Proof.
+  unfold next_available. vm_compute. split; [tauto|]. split; [reflexivity|]. split.
+  - intros [H|[H|[]]]; discriminate.
+  - intros z Hz Hs _. destruct Hz as [<-|[<-|[<-|[<-|[<-|[]]]]]]; simpl in Hs; try discriminate; intros H; discriminate.
+Qed.
